@@ -296,7 +296,7 @@ func (e *Engine) InitPackages(st *State, paths []string) {
 			t := g.Type().Underlying().(*types.Pointer).Elem()
 			id := e.internObj(objKey{0, len(e.globals) + 1, "global:" + p.Pkg.Path() + "." + n})
 			e.globals[g] = id
-			st.Heap[id] = &Object{Kind: OMem, Cells: appendZero(nil, t), T: t, Site: "global " + n, ep: st.ep}
+			st.setObj(id, &Object{Kind: OMem, Cells: appendZero(nil, t), T: t, Site: "global " + n, ep: st.ep})
 		}
 	}
 	_ = main
